@@ -261,14 +261,12 @@ Isolation == [][\A s \in Streams : (last'.act \in {"Close", "Reset"} /\ last'.s 
 \* the state moves only along the documented transitions
 DocumentedEdges == [][\A s \in Streams : st'[s] # st[s] => <<st[s], st'[s]>> \in DocEdges]_vars
 
-EmitEdge ==
-  Emit => PrintT("EDGE " \o ToJson([s |-> [st |-> st, reg |-> reg, buf |-> buf, lfin |-> lfin, rfin |-> rfin,
-                                           closed |-> closed, rd |-> rd, nreads |-> nreads, fh |-> fh,
-                                           nframes |-> nframes, nsent |-> nsent, arrived |-> arrived,
-                                           finSeen |-> finSeen, delivered |-> delivered, lost |-> lost],
-                                     a |-> last',
-                                     t |-> [st |-> st', reg |-> reg', buf |-> buf', lfin |-> lfin', rfin |-> rfin',
-                                           closed |-> closed', rd |-> rd', nreads |-> nreads', fh |-> fh',
-                                           nframes |-> nframes', nsent |-> nsent', arrived |-> arrived',
-                                           finSeen |-> finSeen', delivered |-> delivered', lost |-> lost']]))
+(* ---- edge emission for the replay binding ------------------------------ *)
+\* compact (positional) encoding of a state, unpacked by checks/_stream.py and harness/stream/stream_test.go:
+\* per stream <<st, reg, buf, lfin, rfin, closed, rd.pc, rd.chunk, rd.eof, rd.torn, nreads, nsent,
+\*              arrived, finSeen, delivered, lost>>, handler <<pc, s, k, fin>>, nframes
+PackS(x) == <<st[x], reg[x], buf[x], lfin[x], rfin[x], closed[x], rd[x].pc, rd[x].chunk, rd[x].eof, rd[x].torn,
+              nreads[x], nsent[x], arrived[x], finSeen[x], delivered[x], lost[x]>>
+Packed == [a |-> PackS("a"), b |-> PackS("b"), fh |-> <<fh.pc, fh.s, fh.k, fh.fin>>, nf |-> nframes]
+EmitEdge == Emit => PrintT("EDGE " \o ToJson([s |-> Packed, a |-> last', t |-> Packed']))
 =============================================================================
